@@ -13,9 +13,11 @@
     same_object_while_unchanged callback_once_per_parse callback_once_per_load
     failed_load_is_noop lock_balanced loader_cache_bounded
     model_alphabet_is_overridden_interface default_loader_bounded
+    recency_is_last_use_order evicted_is_least_recently_used
 -/
 import Genshi.Lemmas.Lru
 import Genshi.Lemmas.LruAbs
+import Genshi.Lemmas.LruTime
 import Genshi.Lemmas.Loader
 import Genshi.Gen.Loader
 namespace Genshi.Props.C15
@@ -102,6 +104,22 @@ theorem set_with_room_keeps_all (a : ALru K V) (k : K) (v : V) (hk : alookup k a
 theorem get_after_set (a : ALru K V) (k : K) (v : V) (hpos : 0 < a.cap) :
     (astep (astep a (.set k v)).1 (.get k)).2 = .val v :=
   aget_after_set a k v hpos
+
+/-- "Recently used" in terms of the history: number the operations; a key is *used* by a store
+    and by a hit.  After every operation sequence the recency list is strictly ordered by the
+    time of last use, most recent first, and `trun` is `arun` with that bookkeeping. -/
+theorem recency_is_last_use_order (cap : Nat) (ops : List (Op K V)) :
+    (trun (tinit cap : Timed K V) ops).a = (arun (aempty cap) ops).1 ∧
+    (trun (tinit cap : Timed K V) ops).a.items.Pairwise
+      (fun p q => (trun (tinit cap : Timed K V) ops).last q.1 < (trun (tinit cap : Timed K V) ops).last p.1) :=
+  ⟨trun_a _ ops, (trun_ordered _ ops (tinit_ordered cap)).1⟩
+
+/-- … so the entry an eviction drops (`evicts_least_recent`: the last one) is the one whose last
+    use is the oldest of all cached entries. -/
+theorem evicted_is_least_recently_used (cap : Nat) (ops : List (Op K V)) (pre : List (K × V)) (p : K × V)
+    (h : (trun (tinit cap : Timed K V) ops).a.items = pre ++ [p]) :
+    ∀ q ∈ pre, (trun (tinit cap : Timed K V) ops).last p.1 < (trun (tinit cap : Timed K V) ops).last q.1 :=
+  last_is_least_recent (trun_ordered _ ops (tinit_ordered cap)) pre p h
 
 /-- `__iter__` yields the keys most recently used first … -/
 theorem iter_is_recency_order (a : ALru K V) : astep a .iter = (a, .keys (akeys a.items)) := rfl
